@@ -8,7 +8,7 @@ def keyCode (s : String) : Nat :=
   if s = "-" then 0 else s.toList.foldl (fun a c => a * 256 + c.toNat) 0
 
 /-- a caller inside WaitForReady: (id, key code or `none` for the whole handler, released) -/
-abbrev Waiter := Nat × Option Nat × Bool
+abbrev Waiter := Nat × Option Nat × Bool × Bool   -- id, key, released, "may already have passed" (started during a tear-down)
 
 structure RegState where
   reg : Registry := {}
@@ -16,12 +16,12 @@ structure RegState where
 
 /-- a parked waiter passes as soon as the latch of its pool is closed -/
 def releaseWaiters (r : Registry) (ws : List Waiter) : List Waiter :=
-  ws.map (fun (id, k, rel) =>
+  ws.map (fun (id, k, rel, race) =>
     let blocks := match k with | none => r.waitBlocksAll | some k => r.waitBlocksKey k
-    (id, k, rel || !blocks))
+    (id, k, rel || !blocks, race))
 
 def showWaiters (ws : List Waiter) : String :=
-  joinWith " " (ws.map (fun (id, _, rel) => s!"{id}:{if rel then "ok" else "parked"}"))
+  joinWith " " (ws.map (fun (id, _, rel, race) => s!"{id}:{if rel then "ok" else if race then "RACE:ok-or-parked" else "parked"}"))
 
 def showRegW (r : Registry) (ws : List Waiter) (extra cb : String) : String :=
   s!"{extra}all=[{joinWith "," (r.all.map toString)}] ready={if r.readyAll then "1" else "0"} cb=[{cb}] waiters=[{showWaiters ws}]"
@@ -57,11 +57,13 @@ def regCmd (st : RegState) (cmd : String) (args : List String) : Option (RegStat
     | some t, some w =>
       let was := st.reg.all.contains t
       let r := st.reg.close t
-      fin r (st.waiters ++ [(w, none, false)]) "" (if was then s!"close:{t}" else "")
+      -- the close callback runs as soon as the carrier's context is done, which may be before the receive loop has
+      -- unregistered the tunnel: the waiter either still finds it registered (and passes) or parks on the new latch
+      fin r (st.waiters ++ [(w, none, false, true)]) "" (if was then s!"close:{t}" else "")
     | _, _ => some (st, "bad-op")
   | "r.wait" =>
     match kvNat args "w", kv args "key" with
-    | some w, some k => fin st.reg (st.waiters ++ [(w, if k = "*" then none else some (keyCode k), false)]) "" ""
+    | some w, some k => fin st.reg (st.waiters ++ [(w, if k = "*" then none else some (keyCode k), false, false)]) "" ""
     | _, _ => some (st, "bad-op")
   | "r.pick" =>
     match kv args "via" with
